@@ -149,4 +149,10 @@ func (t *Ticker) Reset(d time.Duration) {
 	t.arm()
 }
 
-func Tick(d time.Duration) <-chan time.Time { return NewTicker(d).C }
+// Tick is time.Tick: like the real one it returns nil (a channel that blocks for ever) for d <= 0.
+func Tick(d time.Duration) <-chan time.Time {
+	if d <= 0 {
+		return nil
+	}
+	return NewTicker(d).C
+}
